@@ -153,6 +153,26 @@ func main(a uint8, b [8200]uint8) (uint8, uint8, uint8) {
 `, func(r *vrt.Rng) ([]string, []string) {
 		return []string{fmt.Sprint(r.Intn(256))}, []string{"0x" + fmt.Sprintf("%x", r.Bytes(8200))}
 	}},
+	// signed comparisons, division and remainder of a 64-bit variable with
+	// literals that are stored in 32 wires with the top bit set (the narrower
+	// operand is widened at instruction level, by zero for such a literal)
+	{"signed-operators-with-32-bit-literals-whose-top-bit-is-set", `package main
+func main(a int64, b int64) (bool, bool, bool, bool, int64, int64, bool) {
+	return a < 2147483648, b >= 4294967295, a <= 4294967280, b > 3000000000, a / 3000000000, b % 2147483649, a < b
+}
+`, func(r *vrt.Rng) ([]string, []string) {
+		v := func() string {
+			switch r.Intn(4) {
+			case 0:
+				return fmt.Sprint(int64(r.Intn(1<<20)) - 1<<19)
+			case 1:
+				return fmt.Sprint(int64(2147483648) + int64(r.Intn(1<<31)))
+			default:
+				return fmt.Sprint(int64(r.U64()))
+			}
+		}
+		return []string{v()}, []string{v()}
+	}},
 }
 
 // c05StoreProgram draws a program of the "store" family: a byte/word array
